@@ -16,7 +16,7 @@ RULE = (
     "one-line arrays; with an existing user file also multi-line strings whose lines look like comments, headers or assignments) rendered by the harness's own writer with comment and blank lines, x a user tree derived from it (each key dropped/kept/changed incl. "
     "scalar type changes and, rarely, a table replaced by a plain value or a plain value by a (possibly empty) table, plus user-only keys and tables) x file exists | file absent; table sections may be written in any order (e.g. [server.tls], [ui], [server]) and leaf tables as one-line inline tables; the user may edit the file between two loads. Both texts are first checked with tomllib against the generated trees. "
     "Oracle: reference overlay on plain dicts (user wins at leaves, recurse on tables, keep both sides' private keys); file bytes unchanged when it existed; when absent: "
-    "first load == defaults and creates a file, two further loads == defaults with file bytes unchanged, created file parses as TOML. "
+    "first load == defaults and creates a file, two further loads == defaults with file bytes unchanged, created file parses as TOML; the user may then edit the generated file and the next load must overlay it. One case in six runs with XDG_CONFIG_HOME set but empty (the file then lives under ~/.config). "
     "Non-trivial = overlap at depth >= 2 with both a changed and an untouched sibling, or the absent-file path with a nested table."
 )
 ASSUMPTIONS = [
@@ -121,6 +121,7 @@ def strategy(draw, tier="quick"):
         "uorder": draw(st.one_of(st.just([]), st.lists(st.integers(0, 5), min_size=1, max_size=6))),
         "inline": draw(st.sampled_from([0, 0, 1, 2, 3, 5, 255])),
         "uinline": draw(st.sampled_from([0, 0, 1, 2, 3, 5, 255])),
+        "xdg_empty": draw(st.integers(0, 5)) == 0,
     }
 
 
@@ -265,7 +266,15 @@ def run_case(case):
             return {"nontrivial": False, "classes": ["set_aside_tomlkit_rejects_valid_toml"], "evals": 0}
     _n += 1
     app = f"app{os.getpid()}x{_n}"
-    cdir = os.path.join(os.environ["XDG_CONFIG_HOME"], "activitywatch", app)
+    xdg_saved = os.environ["XDG_CONFIG_HOME"]
+    cwd_saved = os.getcwd()
+    if case.get("xdg_empty"):
+        # XDG_CONFIG_HOME set but empty counts as unset: the configuration lives under ~/.config (HOME is this process's scratch directory)
+        os.environ["XDG_CONFIG_HOME"] = ""
+        cdir = os.path.join(os.environ["HOME"], ".config", "activitywatch", app)
+        os.chdir(env.fresh_dir())  # whatever a loader might write relative to the working directory stays in scratch
+    else:
+        cdir = os.path.join(xdg_saved, "activitywatch", app)
     path = os.path.join(cdir, app + ".toml")
     try:
         if case["exists"]:
@@ -312,7 +321,28 @@ def run_case(case):
                     raise Violation(f"load {i + 2} after the file was written gave {got!r}, expected defaults {d!r}; written file {raw!r}")
                 if open(path, "rb").read() != raw:
                     raise Violation("a later load rewrote the config file")
+            if case.get("user2") is not None:
+                # the user now edits the generated file (with an editor: this process is not told) and the configuration is loaded again
+                u2 = _one_line(case["user2"])
+                u2text = render(u2, case["ucomments"], (), 0)
+                if _typed(tomllib.loads(u2text)) != _typed(u2):
+                    raise RuntimeError("harness TOML writer disagrees with tomllib")
+                try:
+                    tomlkit.parse(u2text)
+                except Exception:
+                    u2 = None
+                if u2 is not None:
+                    with open(path, "w") as f:
+                        f.write(u2text)
+                    with sut("load_config_toml (after the user edited the generated file)"):
+                        got = _unwrap(load_config_toml(app, dtext))
+                    exp = overlay(d, u2)
+                    if _typed(got) != _typed(exp):
+                        raise Violation(f"after the user edited the generated file to {u2!r}, load_config_toml with default {d!r} gave {got!r}, expected {exp!r}")
     finally:
+        os.environ["XDG_CONFIG_HOME"] = xdg_saved
+        if case.get("xdg_empty"):
+            os.chdir(cwd_saved)
         shutil.rmtree(cdir, ignore_errors=True)
 
     def deep_overlap(dd, uu, depth):
@@ -336,4 +366,8 @@ def run_case(case):
         classes.append("sections_out_of_order")
     if case.get("inline") or case.get("uinline"):
         classes.append("inline_tables")
+    if case.get("xdg_empty"):
+        classes.append("xdg_config_home_empty")
+    if case.get("user2") is not None and not case["exists"]:
+        classes.append("generated_file_edited_then_loaded")
     return {"nontrivial": nt, "classes": classes, "evals": 3}
